@@ -53,7 +53,15 @@ def rand_config2d(rng, per=None, nx=None, ny=None, smooth=True, bcs=None):
 def build2d(cfg):
     mod = impl.pool('euler2d', gamma=cfg['gamma'])
     msh = impl.mesh2d.mesh2d(cfg['nx'], cfg['ny'], cfg['lx'], cfg['ly'])
-    disc = impl.modeldisc.fvm2dcart(mod, msh, make_scheme2d(cfg['scheme']), {k: dict(v) for k, v in cfg['bc'].items()}, numflux=cfg['flux'])
+    num = make_scheme2d(cfg['scheme'])
+    # the scheme object has a history: it already served a discretisation with the same nx, ny and the same area but other cell sizes
+    comp = impl.mesh2d.mesh2d(cfg['nx'], cfg['ny'], cfg['lx'] * 2.0, cfg['ly'] * 0.5)
+    per = {'type': 'per'}
+    d0 = impl.modeldisc.fvm2dcart(mod, comp, num, {'left': per, 'right': per, 'top': per, 'bottom': per}, numflux='centered')
+    one = np.ones(cfg['nx'] * cfg['ny'])
+    with np.errstate(all='ignore'):
+        d0.rhs(impl.field.fdata(mod, comp, mod.prim2cons([1.0 + 0.1 * np.arange(one.size) / one.size, np.vstack([0.1 * one, -0.2 * one]), one])))
+    disc = impl.modeldisc.fvm2dcart(mod, msh, num, {k: dict(v) for k, v in cfg['bc'].items()}, numflux=cfg['flux'])
     W = [np.array(cfg['prim'][0]), np.vstack([cfg['prim'][1], cfg['prim'][2]]), np.array(cfg['prim'][3])]
     Q = mod.prim2cons(W)
     f = impl.field.fdata(mod, msh, [np.array(x, dtype=float) for x in Q])
